@@ -26,6 +26,7 @@ def wire_events(arg):
     import runs
     seed, pw, lossy = arg[:3]
     via = arg[3] if len(arg) > 3 else "arg"
+    chal0 = arg[4] if len(arg) > 4 else ()
     evs = []
     sess = None
     try:
@@ -35,7 +36,7 @@ def wire_events(arg):
             # late copies of earlier answers arrive while the client waits for the raw login reply
             relay = scen.Relay(seed, p_drop=0.25, p_dup=0.3, p_delay=0.25, max_delay=1800000, fault_from=0, fault_to=10 ** 13)
         sess = scen.Session(runs.bdir(), seed=seed, raw=True, qtype=["NULL", "TXT", "CNAME"][seed % 3], password=pw,
-                            tag="lg%d" % seed, relay=relay, pw_via=via)
+                            tag="lg%d" % seed, relay=relay, pw_via=via, challenges=chal0)
         sess.handshake(limit=120_000_000)
         w = sess.w
         chal = {}
@@ -60,7 +61,13 @@ def wire_events(arg):
             elif e["inst"] == "C0" and cls["kind"] == "login" and cls.get("uid") in chal:
                 evs.append({"e": "Wire", "pw": pwb, "seed": chal[cls["uid"]], "delta": 0,
                             "out": list(bytes.fromhex(cls["hash"]))})
-    except (W.KernelHang, W.KernelDied):
+    except W.KernelDied as ex:
+        # a sanitizer abort / crash of one of the programs in the middle of the login dialogue: no action of the
+        # specification matches this event
+        import runs as _r
+        evs.append({"e": "Abort", "what": (_r.sanitizer_report(ex.stderr_tail) or str(ex))[:600], "pw": pw,
+                    "challenges": list(chal0)})
+    except W.KernelHang:
         pass
     finally:
         if sess is not None:
@@ -148,6 +155,10 @@ def main(tier):
     # server only and both
     wires += vcheck.parallel(wire_events, [(seed * 50 + 5000 + 3 * i + k, pw, False, via) for i, pw in enumerate(pws)
                                            for k, via in enumerate(["env", "cenv", "senv"])])
+    # boundary challenges (the server's rand() is the harness's): challenge + 1 / - 1 at the edges of the 31-bit values
+    # rand() returns
+    edge = [0, 1, 2, 0x7fffffff, 0x7ffffffe, 0x7fffff00, 0x00ffffff, 0x7f000000, 0x0000ffff, 0x00010000, 255, 256]
+    wires += vcheck.parallel(wire_events, [(seed * 50 + 6000 + i, pws[i % len(pws)], False, "arg", [c, c]) for i, c in enumerate(edge)])
     wires += vcheck.parallel(reuse_events, [(seed * 50 + 3000 + i, pw) for i, pw in enumerate(pws[:4 if tier == "quick" else 20])])
     wpath = os.path.join(vcheck.scratch(), "wire-%d.ndjson" % os.getpid())
     nw = 0
@@ -160,7 +171,8 @@ def main(tier):
         files.append(wpath)
     _, dn = funcs.survey(chk, files, lambda ev: ev.get("e") in ("Login", "Wire", "RawAnswered"))
     out = funcs.judge_files(chk, "TraceLogin", "TraceLogin.cfg", files, "login",
-                            sigfn=lambda ev: "%s:delta%s" % (ev.get("e"), ev.get("delta", "")))
+                            sigfn=lambda ev: "%s:delta%s" % (ev.get("e"), ev.get("delta", "")) if ev.get("e") != "Abort" else
+                            "Abort:" + vcheck.san_signature(ev.get("what", "")))
     chk.cov["evaluations"] = out["events"]
     chk.cov["wire_events"] = nw
     chk.cov["wire_kinds"] = sorted({e["delta"] for evs in wires for e in evs if "delta" in e})
